@@ -1461,6 +1461,17 @@ impl Reader {
   }
 }
 
+// Verification hook: the count of the last HEARTBEAT processed for a matched writer.
+#[cfg(rustdds_verif)]
+impl Reader {
+  pub(crate) fn verif_received_heartbeat_count(&self, writer_guid: GUID) -> Option<i32> {
+    self
+      .matched_writers
+      .get(&writer_guid)
+      .map(|wp| wp.received_heartbeat_count)
+  }
+}
+
 impl HasQoSPolicy for Reader {
   fn qos(&self) -> QosPolicies {
     self.qos_policy.clone()
